@@ -63,6 +63,9 @@ fn namespaces() {
         ("<!DOCTYPE a [<!ATTLIST a xmlns CDATA 'u'>]><a/>", Some("attlist-xmlns")),
         ("<!DOCTYPE a [<!ATTLIST a xmlns:p CDATA #IMPLIED>]><a/>", Some("attlist-xmlns")),
         ("<!DOCTYPE a [<!ATTLIST a p:x CDATA #IMPLIED>]><a/>", None),
+        ("<!DOCTYPE a [<!ATTLIST a p:x CDATA #REQUIRED xml:lang CDATA 'en'>]><a/>", None),
+        ("<!DOCTYPE a [<!ATTLIST a p:x CDATA 'v'>]><a/>", Some("attlist-prefixed-default")),
+        ("<!DOCTYPE a [<!ATTLIST a p:x CDATA #FIXED 'v'>]><a xmlns:p='u'/>", Some("attlist-prefixed-default")),
         ("<!DOCTYPE a:b:c><a/>", Some("decl-name-not-qname")),
         ("<!DOCTYPE a [<!ELEMENT a:b:c ANY>]><a/>", Some("decl-name-not-qname")),
         ("<!DOCTYPE a [<!ELEMENT a (b:c:d)>]><a/>", Some("decl-name-not-qname")),
